@@ -66,7 +66,7 @@ func LoadEngine(lc LoadConfig) (*Engine, error) {
 	}
 	prog, spkgs := ssautil.AllPackages(pkgs, ssa.InstantiateGenerics)
 	prog.Build()
-	e := &Engine{prog: prog, mainPkg: spkgs[0], intrinsics: map[string]intrinsic{}, coverage: map[*ssa.BasicBlock]struct{}{}}
+	e := &Engine{prog: prog, mainPkg: spkgs[0], intrinsics: map[string]intrinsic{}, opaqueMethods: map[string]intrinsic{}, coverage: map[*ssa.BasicBlock]struct{}{}}
 	if rt := prog.ImportedPackage("runtime"); rt != nil {
 		e.runtimeErrType = rt.Type("errorString").Object().Type()
 	}
